@@ -381,3 +381,14 @@ Check SrcTie3EncC.translated_enc_reader_detects.
 Theorem C03_tie_translated_enc_reader_detects : ltac:(let t := type of SrcTie3EncC.translated_enc_reader_detects in exact t).
 Proof. exact SrcTie3EncC.translated_enc_reader_detects. Qed.
 Print Assumptions C03_tie_translated_enc_reader_detects.
+
+(* ---------- Tie A level 1, work package cryptoT: the tag that `load_in_cache` compares is computed by the TRANSLATED
+   AesGcm256::decrypt (gen/Src3g.v), equal to Gcm.gcm_decrypt for every state and buffer; on a one-shot ciphertext it returns
+   the plaintext and the specification's tag ---------- *)
+From MLA Require SrcTie3Gcm.
+Theorem C03_tie_aesgcm_decrypt_src : ltac:(let t := type of SrcTie3Gcm.aesgcm_decrypt_src in exact t).
+Proof. exact SrcTie3Gcm.aesgcm_decrypt_src. Qed.
+Print Assumptions C03_tie_aesgcm_decrypt_src.
+Theorem C03_tie_gcm_decrypt_tag_src : ltac:(let t := type of SrcTie3Gcm.gcm_decrypt_tag_src in exact t).
+Proof. exact SrcTie3Gcm.gcm_decrypt_tag_src. Qed.
+Print Assumptions C03_tie_gcm_decrypt_tag_src.
